@@ -14,6 +14,7 @@ UNITS = {
     "u05v_sync_flags": {"verus": "specs/u05v_sync_flags.vt.rs"},
     "u14_loadopts": {"verus": "specs/u14_loadopts.vt.rs"},
     "u15_colids": {"verus": "specs/u15_colids.vt.rs"},
+    "u16_autocommit": {"verus": "specs/u16_autocommit.vt.rs"},
 }
 CHUNK = "rust/automerge/src/storage/chunk.rs"
 EXID = "rust/automerge/src/exid.rs"
@@ -72,6 +73,7 @@ HARNESSES = {
     "u05_flags_roundtrip": {"crate": "automerge", "file": "rust/automerge/src/sync.rs", "fn": "MessageFlags::encode, MessageFlags::parse_bytes", "mode": "complete", "bound": "all 7-bit flag values (loops bounded by the 3-byte section)"},
     "u05_flags_set_contains": {"crate": "automerge", "file": "rust/automerge/src/sync.rs", "fn": "MessageFlags::set, MessageFlags::contains, MessageFlags::new", "mode": "complete", "bound": "all u8 x single-bit flags (loop-free)"},
     "u05_flags_parse_bytes": {"crate": "automerge", "file": "rust/automerge/src/sync.rs", "fn": "MessageFlags::parse_bytes", "mode": "bounded", "bound": "all flag sections of <= 3 bytes"},
+    "u05_encode_many_prefix": {"crate": "automerge", "file": "rust/automerge/src/sync.rs", "fn": "encode_many (count prefix of encode_hashes / Message::encode / State::encode)", "mode": "complete", "bound": "all usize element counts (element source reports a symbolic len and yields nothing; LEB128 loops bounded by the 10-byte width)"},
     "u05_set_read_only_transitions": {"crate": "automerge", "file": "rust/automerge/src/sync/state.rs", "fn": "State::set_read_only", "mode": "bounded", "bound": "all flag combinations; container fields empty or one capability"},
     # ---- U06 hexane
     "u06_leb_unsigned_roundtrip": {"crate": "hexane", "file": "rust/hexane/src/codec.rs", "fn": "Leb128::encode_unsigned, read_unsigned, try_read_unsigned, unsigned_len, unsigned_size, ulebsize, VarBuf::push, VarBuf::as_bytes", "mode": "complete", "bound": "all u64 (loops bounded by the 10-byte width, unwind 12 with unwinding assertions)"},
@@ -140,12 +142,14 @@ PROPERTIES = {
 PROPERTIES.update({
     "C04": {
         "level": "proof",
-        "verus": [("u10_changes", ["transaction_args", "update_heads", "update_deps", "lemma_heads_preserved", "lemma_prefix_set_step"])],
+        "verus": [("u10_changes", ["transaction_args", "update_heads", "update_deps", "lemma_heads_preserved", "lemma_prefix_set_step"]), ("u16_autocommit", "*")],
         "kani": [],
-        "not_under_contract": ["ChangeGraph::add_changes / add_nodes", "Automerge::isolate_actor", "get_or_create_actor_index", "seq_for_actor / max_op / get_hash / get_heads (assumed accessor contracts)", "loads"],
+        "not_under_contract": ["AutoCommit::rollback, SyncWrapper::receive_sync_message and the Transactable methods of AutoCommit (closure with tuple-pattern parameter / trait-impl methods: outside this Verus)", "TransactionInner::commit (assumed contract: requires the document version its cached arguments were computed against)", "ChangeGraph::add_changes / add_nodes", "Automerge::isolate_actor", "get_or_create_actor_index", "seq_for_actor / max_op / get_hash / get_heads (assumed accessor contracts)", "loads"],
         "trusted": ["std BTreeSet/HashSet as mathematical sets (assumed stub contracts)", "<[T]>::to_vec / <[T]>::contains assume_specification", "Change accessors (hash, deps) as abstract fields"],
         "explanation": "Verus proves on the real text of Automerge::transaction_args that seq = seq_for_actor+1, start_op = max_op+1, isolated deps = the given heads, "
-                       "non-isolated deps = current heads plus the actor's previous change without duplicate; and on the real ChangeGraph::update_heads / Automerge::update_deps that "
+                       "non-isolated deps = current heads plus the actor's previous change without duplicate; on the real AutoCommit methods (U16, ghost document version) that a lazily opened transaction is always "
+                       "based on the current document state and scoped to the current isolation heads when it is committed, that every entry point that lets remote changes / actor changes in flushes it first, that flushing "
+                       "never leaves isolation and moves the isolated view to the change just made, and that isolate(h) isolates at exactly h; and on the real ChangeGraph::update_heads / Automerge::update_deps that "
                        "heads' = (heads \\ deps) + {hash}, with lemma_heads_preserved showing this keeps 'heads = applied changes nobody depends on'. Callees are assumed contracts (listed).",
     },
     "C38": {
@@ -195,23 +199,26 @@ PROPERTIES.update({
     },
     "C30": {
         "level": "proof",
-        "verus": [("u04_ids", ["exid_to_opid", "get_actor_safe", "new", "remove_actor", "rewrite_with_new_actor", "with_new_actor", "without_actor", "actor"])],
+        "verus": [("u04_ids", ["exid_to_opid", "get_actor_safe", "new", "remove_actor", "rewrite_with_new_actor", "with_new_actor", "without_actor", "actor"]),
+                  ("u16_autocommit", ["ensure_transaction_open", "ensure_transaction_closed", "commit_with", "empty_change", "set_actor", "load_incremental", "apply_changes", "apply_changes_batch", "merge", "save_with_options", "fork"])],
         "kani": ["u04_opid_order", "u04_opid_actor_shift", "u04_opid_new"],
         "not_under_contract": ["OpSet::lookup_actor (binary search; assumed contract, rests on the sorted duplicate-free actor table)", "OpSet::insert_actor / ChangeGraph::insert_actor column rewrites", "get_obj_meta", "PatchLog::migrate_actors loop"],
         "assumptions": ["a document has at most u32::MAX actors"],
         "explanation": "Verus proves on the real Automerge::exid_to_opid that an id resolves to an op id whose actor IS the id's actor whether the index hint is right, stale or out of range, and that an unknown "
                        "actor gives Err; the actor-table shifts OpId::with_new_actor / without_actor are proved exactly (Verus) and order/identity preserving and mutually inverse (Kani, complete); "
-                       "Event::with_new_actor / without_actor re-index EVERY id-carrying pending patch event and nothing else; Actor::{remove_actor, rewrite_with_new_actor} keep the document's cached actor index on the same actor.",
+                       "Event::with_new_actor / without_actor re-index EVERY id-carrying pending patch event and nothing else; Actor::{remove_actor, rewrite_with_new_actor} keep the document's cached actor index on the same actor; "
+                       "U16: no AutoCommit entry point that can shift the actor table (load_incremental, apply_changes*, merge, set_actor, save) runs while a transaction holding a cached actor index is open, and a fork never inherits one.",
     },
     "C37": {
         "level": "proof",
-        "verus": [("u04_ids", ["exid_to_opid", "op_cursor_to_opid", "new", "get_actor_safe"])],
+        "verus": [("u04_ids", ["exid_to_opid", "op_cursor_to_opid", "new", "get_actor_safe"]), ("u16_autocommit", ["ensure_transaction_open", "commit_with", "empty_change", "ensure_transaction_closed"])],
         "kani": ["u04_opid_new", "u12_normalize_range"],
         "not_under_contract": ["every other public entry point", "the ~100 internal OpId::new call sites", "hydrate::Value::apply_patches"],
         "assumptions": ["a document has at most u32::MAX actors"],
         "explanation": "For the id/cursor argument conversions and list-range normalisation only: normalize_range is proved (Kani, complete over all pairs of bounds) never to panic and to return exactly "
                        "the caller's range; OpId::new's two unwrap()s become its precondition (verified on its real body), and Verus proves every call from exid_to_opid and "
-                       "op_cursor_to_opid establishes it for EVERY ExId / cursor value a caller can construct or decode.",
+                       "op_cursor_to_opid establishes it for EVERY ExId / cursor value a caller can construct or decode. "
+                       "U16: AutoCommit's `.unwrap()` of the just-opened transaction and the `assert!` in PatchLog::begin_transaction (no speculative actor pending) cannot fire from ensure_transaction_open / commit_with / empty_change.",
     },
 })
 
@@ -255,7 +262,7 @@ PROPERTIES.update({
                                    "lemma_shape_unique", "lemma_valk_shift", "lemma_valk_prefix", "lemma_step", "lemma_step_top", "lemma_or_add", "lemma_or_add_top", "lemma_p128_shift"]),
                   ("u01_bloom", ["to_bytes", "parse", "default", "leb128_u32"]),
                   ("u05v_sync_flags", ["parse", "encode", "new", "contains", "set"])],
-        "kani": ["u04_changehash_try_from_slice", "u04_actorid_bytes_roundtrip", "u03_leb128_writer_matches_parser", "u05_flags_roundtrip", "u05_flags_set_contains", "u05_flags_parse_bytes", "u01_roundtrip_1", "u01_roundtrip_3",
+        "kani": ["u04_changehash_try_from_slice", "u04_actorid_bytes_roundtrip", "u03_leb128_writer_matches_parser", "u05_flags_roundtrip", "u05_flags_set_contains", "u05_flags_parse_bytes", "u05_encode_many_prefix", "u01_roundtrip_1", "u01_roundtrip_3",
                  "u04_exid_try_from_total_q", "u06_leb_unsigned_roundtrip", "u06_leb_signed_roundtrip"],
         "not_under_contract": ["Cursor::from_str / Display and ExId Display / import_obj (string forms)", "sync::Message::encode/decode, State::encode/decode",
                                "ActorId / ChangeHash hex round trips", "OpSet::lookup_actor (assumed binary search)"],
